@@ -151,9 +151,12 @@ theorem request_cases (enc : JVal → String) (defNs : String) (cmp : JVal → J
         | some expected =>
           rw [hm] at h
           simp only [] at h
-          split at h
-          · simp at h
-          · cases pol with
+          generalize hre : (if (ow && owner.ns == ns) = true then ownerReffed live owner.ref else true) = reffed at h
+          cases hc : (cmp expected live && reffed) with
+          | true => simp [hc] at h
+          | false =>
+            simp only [hc, Bool.false_eq_true, if_false] at h
+            cases pol with
             | never => simp at h
             | recreate =>
               simp only [] at h
@@ -164,8 +167,7 @@ theorem request_cases (enc : JVal → String) (defNs : String) (cmp : JVal → J
             | patch =>
               simp only [] at h
               right; left
-              cases hp : patchPayload enc expected live owner.ref (ow && owner.ns == ns)
-                  (if (ow && owner.ns == ns) = true then ownerReffed live owner.ref else true) with
+              cases hp : patchPayload enc expected live owner.ref (ow && owner.ns == ns) reffed with
               | none => rw [hp] at h; simp [failedRun] at h
               | some p =>
                 rw [hp] at h
@@ -176,6 +178,6 @@ theorem request_cases (enc : JVal → String) (defNs : String) (cmp : JVal → J
                   rw [hq] at h
                   simp at h
                   subst h
-                  exact ⟨live, expected, p, rfl, rfl, rfl, rfl, rfl, hp, hq⟩
+                  exact ⟨live, expected, p, rfl, rfl, rfl, rfl, rfl, by rw [hre]; exact hp, hq⟩
 
 end Koreo.Rf
